@@ -74,7 +74,7 @@ def gen(rng, tier):
                 'others': [{'nitems': rng.choice([1, 3, 17, 100, rng.randrange(1, 400)]), 'chunk': rng.choice([1, 2, 3, 5, 7, 64]),
                             'nframes': rng.choice([1, 2, 3])} for _ in range(rng.choice([1, 1, 2]))]}
     return {
-        'concurrent': conc,
+        'concurrent': conc, 'reused_buffer': rng.random() < 0.25,
         'pseed': rng.randrange(1 << 30), 'pattern': rng.choice(['random', 'ramp', 'zeros']),
         'nitems': nitems, 'itemsize': itemsize, 'cbs': cbs, 'cuts': cuts,
         'ones': style == 'ones', 'empties': empties,
@@ -233,6 +233,25 @@ def run(case):
         if not ok1 or not ok0:
             violation(out, 'write-past-end', site, 'guard zone after the output buffer was modified')
         out['events'].append(['direct', n1, len(chunks)])
+    # ---- the same history read through one reused, writable buffer (readinto + yield memoryview(buf)[:n])
+    if case.get('reused_buffer') and n1 is not None and len(chunks) <= 200000:
+        site = 'decompress-reused-read-buffer'
+
+        def reuse(chs):
+            buf = bytearray(max([len(c) for c in chs] + [1]))
+            for c in chs:
+                buf[:len(c)] = c
+                yield memoryview(buf)[:len(c)]
+                buf[:len(c)] = b'\xee' * len(c)        # the reader moves on: the old contents are gone
+        try:
+            n2, b2, ok2 = _decompress(BloscCompressor, reuse(chunks), nbytes, case.get('poison', 'A'))
+            if n2 != nbytes:
+                violation(out, 'wrong-length', site, 'returned %r, payload %d' % (n2, nbytes))
+            elif b2.tobytes() != payload.tobytes():
+                violation(out, 'wrong-bytes', site, 'first diff at byte %d of %d' % (_firstdiff(b2, payload), nbytes))
+            bump(out['faults'], 'reused-read-buffer')
+        except Exception as e:
+            violation(out, 'raises:' + type(e).__name__, site, repr(e)[:300])
     # ---- the same history while other blocks are being decompressed by the same compressor instance
     if case.get('concurrent') and n1 is not None and len(tchunks) <= 20000:
         conc = case['concurrent']
@@ -384,6 +403,8 @@ def _asdf_roundtrip(case, arr, out):
 
 def shrink(case):
     c = dict(case)
+    if case.get('reused_buffer'):
+        yield dict(c, reused_buffer=False)
     if case.get('concurrent'):
         yield dict(c, concurrent=None)
         oth = case['concurrent']['others']
